@@ -282,6 +282,10 @@ def check(an: Analysis) -> None:
                     if uses_merge and not keyed:
                         ob.fail(mf, n, "a merged view is kept on the scope without being keyed by the merge function it was computed with: later views with another merge function (of this scope and of its ancestors) silently reuse it")
     merges = [c for c in mf.own_nodes() if isinstance(c, ast.Call) and is_name(c.func, "merge")]
+    if not merges and any(isinstance(c, ast.Call) and an.callee(mf, c) == "functools.reduce" for f_ in (mf, *mf.nested) for c in f_.own_nodes()):
+        # the fold handed to functools.reduce with a step function: a different spelling of the algorithm, not a rearrangement of
+        # the loop - not judged (DESIGN section 6)
+        raise AnalysisError("C10.5: the merged view is folded with functools.reduce over a step function; this spelling of the fold is not modelled (unrecognised idiom)")
     if len(merges) != 1:
         ob.fail(mf, None, f"metrics() applies the merge function at {len(merges)} sites (expected one)")
     for c in merges:
